@@ -489,31 +489,110 @@ def tr_hold_release():
             "Definition release_step (holding : N) : N := (holding - 1)%N."]
 
 
-def tr_after_recycle(ss):
-    fn = _method_src("Step", "after_recycle")
+def _body_srcs(fn):
     body = [s for s in fn.body if not (isinstance(s, ast.Expr) and isinstance(s.value, ast.Constant))]
-    srcs = [norm(ast.unparse(s)) for s in body]
-    expect = [
-        "self.db.execute('UPDATE step SET need = ?, shell = ?, _holding = 0 WHERE node = ?', (need.value, int(shell), self.i))",
-        "if self.get_state() == StepState.FAILED: self.graph.mark_step_pending(self)",
-        "self.set_resources(resources)",
+    return [norm(ast.unparse(s)) for s in body]
+
+
+def tr_after_recycle(ss):
+    """What re-declaring an existing detached step does to its row.
+
+    Two shapes are recognised (anything else: fail closed):
+    * the original one: Step.after_recycle zeroes _holding and replaces the step_resource rows,
+      Step.initialize_row writes PENDING with the default _holding, Workflow.define_step sets the
+      resources of the re-created step: whatever the state of the row;
+    * the repaired one (`recycle_keeps_inflight`): all three consult Step.in_flight_state() (RUNNING or
+      CHECKING) and leave state, _holding and step_resource of such a row alone.
+    Independently, Workflow.define_step may refuse to declare a detached step whose job is in flight
+    (`define_rejects_inflight`)."""
+    fn = _method_src("Step", "after_recycle")
+    srcs = _body_srcs(fn)
+    upd_all = ("self.db.execute('UPDATE step SET need = ?, shell = ?, _holding = 0 WHERE node = ?', "
+               "(need.value, int(shell), self.i))")
+    upd_keep = "self.db.execute('UPDATE step SET need = ?, shell = ? WHERE node = ?', (need.value, int(shell), self.i))"
+    tail = [
         "self.set_env_overrides(env_overrides)",
         "if duration is not None: self.set_duration(duration)",
     ]
-    if srcs != expect:
+    failed = "if self.get_state() == StepState.FAILED: self.graph.mark_step_pending(self)"
+    shape0 = [upd_all, failed, "self.set_resources(resources)", *tail]
+    shape1 = ["in_flight = self.in_flight_state() is not None",
+              f"if in_flight: {upd_keep} else: {upd_all}", failed,
+              "if not in_flight: self.set_resources(resources)", *tail]
+    if srcs == shape0:
+        keep_ar = False
+    elif srcs == shape1:
+        keep_ar = True
+    else:
         raise TranslatorError("Step.after_recycle: body changed: " + " | ".join(srcs)[:300])
     fn = _method_src("Step", "set_resources")
     src = norm(ast.unparse(fn))
     if "self.db.execute('DELETE FROM step_resource WHERE node = ?', (self.i,))" not in src or \
             "self.db.executemany('INSERT INTO step_resource VALUES (?, ?, ?)', rows)" not in src:
         raise TranslatorError("Step.set_resources: no longer replaces all rows")
-    # partial recycle: initialize_row writes PENDING and does not mention _holding (DEFAULT 0)
+    # partial recycle: initialize_row deletes the row and writes a new one
     fn = _method_src("Step", "initialize_row")
     src = norm(ast.unparse(fn))
     if "self.db.execute('DELETE FROM step WHERE node = :node', {'node': self.i})" not in src:
         raise TranslatorError("Step.initialize_row: row is no longer deleted first")
-    if "'state': StepState.PENDING.value" not in src or "_holding" in src:
+    if "'state': StepState.PENDING.value," in src and "_holding" not in src and "in_flight" not in src:
+        keep_ir = False
+    elif ("in_flight = self.in_flight_state() self.db.execute('DELETE FROM step WHERE node = :node'" in src
+          and "_implied_need, _check_after, _holding, _has_hash) VALUES(" in src
+          and ":implied_need, 1, :holding, (SELECT EXISTS(SELECT 1 FROM step_hash WHERE node = :node))" in src
+          and "'state': StepState.PENDING.value if in_flight is None else in_flight[0]," in src
+          and "'holding': 0 if in_flight is None else in_flight[1]," in src
+          and src.count("in_flight") == 6 and src.count("_holding") == 1):
+        keep_ir = True
+    else:
         raise TranslatorError("Step.initialize_row: state/_holding initialisation changed")
+    # define_step: resources of the re-created (or new) step
+    wtree = parse_module(f"{CORE}/workflow.py")
+    dfn = find_function(wtree, "define_step", "Workflow")
+    dsrc = norm(ast.unparse(dfn))
+    create = ("step = self.create(Step, creator, command, workdir=workdir, need=need, shell=shell, "
+              "duration=duration, _safe=_safe) ")
+    if dsrc.count("set_resources") != 1 or dsrc.count("self.create(") != 1:
+        raise TranslatorError("Workflow.define_step: expected one create and one set_resources call")
+    if create + "step.set_resources(resources) step.set_env_overrides(env_overrides)" in dsrc:
+        keep_ds = False
+    elif create + ("if step.in_flight_state() is None: step.set_resources(resources) "
+                   "step.set_env_overrides(env_overrides)") in dsrc:
+        keep_ds = True
+    else:
+        raise TranslatorError("Workflow.define_step: the resources of a (re-)created step are no longer set right after create")
+    if len({keep_ar, keep_ir, keep_ds}) != 1:
+        raise TranslatorError(f"recycling of an in-flight step: after_recycle/initialize_row/define_step disagree "
+                              f"(keep = {keep_ar}/{keep_ir}/{keep_ds})")
+    keep = keep_ar
+    stree = parse_module(f"{CORE}/step.py")
+    has_ifs = any(isinstance(n, ast.FunctionDef) and n.name == "in_flight_state" for n in ast.walk(stree))
+    if keep:
+        ifs = _body_srcs(_method_src("Step", "in_flight_state"))
+        if ifs != ["row = self.db.execute('SELECT state, _holding FROM step WHERE node = ?', (self.i,)).fetchone()",
+                   "if row is None or row[0] not in (StepState.RUNNING.value, StepState.CHECKING.value): return None",
+                   "return row"]:
+            raise TranslatorError("Step.in_flight_state: body not recognised: " + " | ".join(ifs)[:300])
+    elif has_ifs:
+        raise TranslatorError("Step.in_flight_state exists but the recycle code does not use it")
+    # the refusal of the re-declaration (the other repair)
+    guard_assign = "in_flight = self.find(Step, step_label)"
+    guard_test = ("in_flight is not None and in_flight.is_detached() and "
+                  "(in_flight.get_state() in (StepState.RUNNING, StepState.CHECKING))")
+    rej = False
+    top = [n for n in dfn.body]
+    for k, st in enumerate(top):
+        if isinstance(st, ast.If) and "in_flight" in ast.unparse(st.test) and "in_flight_state" not in ast.unparse(st.test):
+            ok = (norm(ast.unparse(st.test)) == guard_test and not st.orelse and len(st.body) == 1
+                  and isinstance(st.body[0], ast.Raise) and ast.unparse(st.body[0].exc).startswith("GraphError(")
+                  and k > 0 and norm(ast.unparse(top[k - 1])) == guard_assign)
+            later = " ".join(norm(ast.unparse(x)) for x in top[k + 1:])
+            if not ok or "self.try_recycle(" not in later or "self.create(" not in later:
+                raise TranslatorError("Workflow.define_step: guard on a step in flight not recognised")
+            rej = True
+    n_inflight = dsrc.count("in_flight")
+    if n_inflight != (4 if rej else 0) + (1 if keep else 0):
+        raise TranslatorError("Workflow.define_step: unexpected use of `in_flight`")
     # try_recycle / create: which rows may be recycled
     tree = parse_module(f"{CORE}/trellis.py")
     tr = norm(ast.unparse(find_function(tree, "try_recycle", "Trellis")))
@@ -529,13 +608,20 @@ def tr_after_recycle(ss):
     crs = ast.unparse(cr_fn)
     if "get_state" in crs or "StepState" in crs:
         raise TranslatorError("Step.can_recycle: now inspects the step state (model must be revised)")
+    b = lambda v: "true" if v else "false"  # noqa: E731
     return [
+        "(* what Step.after_recycle does to a row whose job is NOT in flight *)",
         "Definition recycle_zeroes_holding : bool := true.",
         "Definition recycle_replaces_claims : bool := true.",
         "Definition recycle_failed_to_pending : bool := true.",
         f"Definition partial_recycle_state : N := {ss['PENDING']}%N.",
         "Definition recycle_inspects_state : bool := false.",
-    ]
+        "(* shape of the recycle code w.r.t. a step whose job is in flight (RUNNING/CHECKING): after_recycle,",
+        "   initialize_row and define_step leave state, _holding and step_resource of such a row alone *)",
+        f"Definition recycle_keeps_inflight : bool := {b(keep)}.",
+        "(* Workflow.define_step refuses to declare a detached step again while its job is in flight *)",
+        f"Definition define_rejects_inflight : bool := {b(rej)}.",
+    ], {"recycle_keeps_inflight": keep, "define_rejects_inflight": rej}
 
 
 def tr_mark_step_pending():
@@ -689,7 +775,8 @@ def generate():
     tr_pop_next_job()
     parts.append(tr_triggers(ss))
     parts += tr_hold_release()
-    parts += tr_after_recycle(ss)
+    rec_defs, shape = tr_after_recycle(ss)
+    parts += rec_defs
     tr_mark_step_pending()
     parts.append("Definition dispatch_code (has_hash : bool) : N := if has_hash then code_CHECKING else code_RUNNING.")
     slot, facts = tr_builder()
@@ -702,7 +789,7 @@ def generate():
     parts.append(f"   SELECT_NEXT_STEP order by: {order}")
     parts.append("   pop_next_job: draining test, then ONE transaction without awaits: meta updates, select,")
     parts.append("   derive job, set_state; hold/release handlers: one transaction each on scheduler.jobs[job_i] *)")
-    return "\n".join(parts) + "\n", {"enums": ss, "need": need, "facts": facts}
+    return "\n".join(parts) + "\n", {"enums": ss, "need": need, "facts": facts, "shape": shape}
 
 
 if __name__ == "__main__":
